@@ -1,7 +1,13 @@
 /-
-  LzProofs.GenDHPParseLoop — one iteration of the two greedy loops of dhp.go `Parse` (loop_1: both tables,
-  `i < e2`; loop_5: the table of the short hash only, `e2 ≤ i < e1`) versus one step of
-  `ProbeW.greedyLoopW (ProbeW.dhpProbeW … false …)`, and the two loops (instances of `GenParse.greedy_generic`).
+  LzProofs.GenBDHPParseLoop — one iteration of the two greedy loops of bdhp.go `Parse` (first loop: both tables,
+  `i < e2`; second loop: the table of the short hash only, `e2 ≤ i < e1`) versus one step of
+  `ProbeW.greedyLoopW (ProbeW.dhpProbeW … true …)`, and the two loops (instances of `GenParse.greedy_generic`).
+
+  Shape independence: no generated loop function is named (see the header of GenBDHPParseLemmas); the two greedy loops
+  are `callee_loop% bdhp_Parse 0/1`; the step lemmas compute the generated side in a hypothesis `hG : … = G`
+  ("continuation style"), every `if` is decided by omega from facts in the spelling of the model (`decide_if`), the
+  inner loops and the extension blocks are taken from `hG` by unification, extracted helpers are unfolded generically
+  (`unfold_helpers`), the final call of the loop is compared up to integer arithmetic (`loop_congr`).
 -/
 import LzProofs.GenBDHPParseLemmas
 
@@ -15,8 +21,30 @@ open LZ LZ.Gen LZ.GenBuf LZ.GenHash LZ.GenHPParse LZ.GenParse LZ.GenDHPParse LZ.
 def absB (s : Gen.bdhp) : Hash2 :=
   ⟨ofHash s.doubleHashDictionary.h1, ofHash s.doubleHashDictionary.h2⟩
 
+/-- the clamp of the first-word match length, the window test and the value test of the generated text are decided
+    from facts in the spelling of the MODEL (`first_word`, `j < i ∧ i - j ≤ ws`, `val_ne_iff`) by omega / by the iff
+    below, whatever their spelling in the generated text -/
+theorem val_ne_iff (x : UInt64) (ent : hashEntry) : x.toUInt32 ≠ ent.value ↔ lo32 x ≠ (ofEntry ent).2 := by
+  constructor
+  · intro h hc; apply h; apply UInt32.toNat_inj.mp; rw [lo32_eq]; exact hc
+  · intro h hc; apply h; rw [← lo32_eq, hc]; rfl
+
+/-- decide a value test `v ≠ e`, `v = e`, `e ≠ v`, `¬ v = e`, … at the head of `h` from `hv : v ≠ e` or `hv : ¬ v ≠ e` -/
+macro "decide_val" hv:ident " at " h:ident : tactic =>
+  `(tactic| first
+    | rw [if_pos $hv] at $h:ident
+    | rw [if_neg $hv] at $h:ident
+    | rw [if_pos (fun hc => $hv hc.symm)] at $h:ident
+    | rw [if_neg (fun hc => $hv hc.symm)] at $h:ident
+    | rw [if_pos (fun hc => $hv (fun hd => hd hc))] at $h:ident
+    | rw [if_neg (fun hc => $hv (fun hd => hd hc))] at $h:ident
+    | rw [if_pos (Decidable.not_not.mp $hv)] at $h:ident
+    | rw [if_pos (Decidable.not_not.mp $hv).symm] at $h:ident
+    | rw [if_neg (fun hc => absurd (Decidable.not_not.mp $hv) hc)] at $h:ident
+    | rw [if_neg (fun hc => absurd (Decidable.not_not.mp $hv).symm hc)] at $h:ident)
+
 set_option maxHeartbeats 1000000 in
-/-- one iteration of the SECOND loop (`for ; i < e1; i++`, entered with `e2 ≤ i`) -/
+/-- one iteration of the SECOND greedy loop (`for ; i < e1; i++`, entered with `e2 ≤ i`) -/
 theorem loop5_step (grow : Nat → Nat → Nat) (lcs : Slice → Slice → Int) (hlcs : LcsSpec lcs) (e1I mm : Int) (A : List UInt8) (L E1 E2 mmN ws : Nat)
     (fuel i li : Nat) (ia lia : Int) (s : Gen.bdhp) (blk : Block')
     (w1 : HOK s.doubleHashDictionary.h1)
@@ -28,13 +56,13 @@ theorem loop5_step (grow : Nat → Nat → Nat) (lcs : Slice → Slice → Int) 
     ∃ r, ProbeW.dhpProbeW ws mmN E1 E2 true (A.drop L) (absB s) (A.take L) i li = some r ∧
       ∃ t1', TOK s.doubleHashDictionary.h1.shift t1' ∧
         r.1 = ⟨ofHashT s.doubleHashDictionary.h1 t1', ofHash s.doubleHashDictionary.h2⟩ ∧
-        bdhp_Parse_loop_5 grow lcs e1I { arr := A, len := E1 + 7 } { arr := A, len := L } mm (fuel + 1) ia s blk lia =
+        (callee_loop% bdhp_Parse 1) grow lcs e1I { arr := A, len := E1 + 7 } { arr := A, len := L } mm (fuel + 1) ia s blk lia =
           (match r.2 with
           | none =>
-            bdhp_Parse_loop_5 grow lcs e1I { arr := A, len := E1 + 7 } { arr := A, len := L } mm fuel (ia + 1)
+            (callee_loop% bdhp_Parse 1) grow lcs e1I { arr := A, len := E1 + 7 } { arr := A, len := L } mm fuel (ia + 1)
               (setTB s t1' s.doubleHashDictionary.h2.table) blk lia
           | some (st, k, o) =>
-            bdhp_Parse_loop_5 grow lcs e1I { arr := A, len := E1 + 7 } { arr := A, len := L } mm fuel
+            (callee_loop% bdhp_Parse 1) grow lcs e1I { arr := A, len := E1 + 7 } { arr := A, len := L } mm fuel
               ((st + k : Nat) : Int) (setTB s t1' s.doubleHashDictionary.h2.table)
               { Sequences := blk.Sequences ++ [seqRep { litLen := st - li, matchLen := k, offset := o }],
                 Literals := Slice.append grow blk.Literals ((A.drop li).take (st - li)) }
@@ -51,106 +79,92 @@ theorem loop5_step (grow : Nat → Nat → Nat) (lcs : Slice → Slice → Int) 
   rw [hpd] at hy
   obtain ⟨ent, t1, hidx, hset, ht1, hget, hofs⟩ := table_probe s.doubleHashDictionary.h1 s.doubleHashDictionary.h1.table
     w1.tok w1.sh1 w1.sh2 y ia i hia (by omega)
-  rw [bdhp_Parse_loop_5, if_pos (by omega), hF]
-  dsimp only
-  rw [hidx, bind_ok, hset, bind_ok]
+  -- the generated side: `G`, computed step by step in `hG`
+  generalize hG : (callee_loop% bdhp_Parse 1) grow lcs e1I { arr := A, len := E1 + 7 } { arr := A, len := L } mm (fuel + 1) ia s blk lia = G
+  unfold_head at hG
+  unfold_helpers at hG
+  decide_if at hG
+  rw [hF] at hG
+  try dsimp only at hG
+  rw [hidx, bind_ok, hset, bind_ok] at hG
   have hnf := dhpProbeW_nf2 ws mmN E1 E2 true (A.drop L) (absB s) (A.take L) i li (A.take (E1 + 7)) y hi2 hmem hy
     (y &&& s.doubleHashDictionary.h1.mask) (by rw [w1.mask]; rfl) (ofEntry ent) hget
     (ofHashT s.doubleHashDictionary.h1 t1) hofs
   -- A: the stored value differs
   by_cases hvA : (y &&& s.doubleHashDictionary.h1.mask).toUInt32 ≠ ent.value
-  · have hA : lo32 (y &&& s.doubleHashDictionary.h1.mask) ≠ (ofEntry ent).2 := by
-      intro hc; apply hvA; apply UInt32.toNat_inj.mp; rw [lo32_eq]; exact hc
-    refine ⟨(⟨ofHashT s.doubleHashDictionary.h1 t1, ofHash s.doubleHashDictionary.h2⟩, none), by rw [hnf, if_pos hA]; rfl,
-      t1, ht1, rfl, ?_, by intro st k o h; cases h⟩
-    rw [if_pos hvA]
-  have hA : ¬ lo32 (y &&& s.doubleHashDictionary.h1.mask) ≠ (ofEntry ent).2 := by
-    intro hc; apply hc; rw [← lo32_eq, Decidable.not_not.mp hvA]; rfl
-  rw [if_neg hvA]
-  rw [if_neg hA] at hnf
+  · decide_val hvA at hG
+    exact ⟨(⟨ofHashT s.doubleHashDictionary.h1 t1, ofHash s.doubleHashDictionary.h2⟩, none),
+      by rw [hnf, if_pos ((val_ne_iff _ _).mp hvA)]; rfl, t1, ht1, rfl, hG.symm, by intro st k o h; cases h⟩
+  decide_val hvA at hG
+  rw [if_neg (fun hc => hvA ((val_ne_iff _ _).mpr hc))] at hnf
   unfold tailM2 at hnf
   simp only [if_true, Option.bind_some] at hnf
   -- B: the candidate is outside the window
   have hj1 : (ofEntry ent).1 = ent.pos.toNat := rfl
   rw [hj1] at hnf
-  generalize hjdef : ent.pos.toNat = j at hnf ⊢
+  generalize hjdef : ent.pos.toNat = j at hnf hG
+  try dsimp only at hG
   by_cases hw : ¬ (j < i ∧ i - j ≤ ws)
-  · refine ⟨(⟨ofHashT s.doubleHashDictionary.h1 t1, ofHash s.doubleHashDictionary.h2⟩, none), by rw [hnf, if_pos hw]; rfl,
-      t1, ht1, rfl, ?_, by intro st k o h; cases h⟩
-    split
-    all_goals first
-      | rfl
-      | (rename_i hc; exfalso; simp only [Int.ofNat_eq_natCast] at hc; omega)
-  have hc1 : 0 < ia - Int.ofNat j := by show 0 < ia - (j : Int); omega
-  have hc2 : ia - Int.ofNat j ≤ s.BDHPConfig.WindowSize := by show ia - (j : Int) ≤ _; omega
-  have hc3 : ¬ (ia - Int.ofNat j ≤ 0) := by show ¬ (ia - (j : Int) ≤ 0); omega
-  have hc4 : ¬ (ia - Int.ofNat j > s.BDHPConfig.WindowSize) := by show ¬ (ia - (j : Int) > _); omega
-  have hc5 : ¬ (s.BDHPConfig.WindowSize < ia - Int.ofNat j) := hc4
-  simp only [hc1, hc2, hc3, hc4, hc5, and_self, or_self, not_true_eq_false, not_false_eq_true, if_false, if_true]
+  · decide_if at hG
+    exact ⟨(⟨ofHashT s.doubleHashDictionary.h1 t1, ofHash s.doubleHashDictionary.h2⟩, none), by rw [hnf, if_pos hw]; rfl,
+      t1, ht1, rfl, hG.symm, by intro st k o h; cases h⟩
+  decide_if at hG
   rw [if_neg hw] at hnf
   have hw := Decidable.not_not.mp hw
   -- C: the first word of the candidate
   obtain ⟨z, hz, hF2⟩ := gen_load_ok { arr := A, len := E1 + 7 } hswf (Int.ofNat j) j rfl (by show j + 8 ≤ E1 + 7; omega)
   rw [hpd] at hz
-  rw [hF2]
-  rw [tz_shr]
+  rw [hF2] at hG
+  rw [tz_shr] at hG
   obtain ⟨k8, hk8le, hk8, hfw⟩ := first_word A L E1 mmN i j y z ia hia hy hz hw.1 hi hEL hLA hEA
-  rw [hk8]
+  -- the clamp `k8 = min (tz >>> 3) (len(p) - i)`, whatever its spelling
+  rw [ite_int_eq (v := ((k8 : Nat) : Int)) (by omegaI)] at hG
   rcases hfw with ⟨hC1, hml⟩ | ⟨hC1, kk, hme, hml, hkk1, hkk2⟩
-  · refine ⟨(⟨ofHashT s.doubleHashDictionary.h1 t1, ofHash s.doubleHashDictionary.h2⟩, none), by rw [hnf, hml]; rfl,
-      t1, ht1, rfl, ?_, by intro st k o h; cases h⟩
-    rw [if_pos (by omega)]
-  rw [if_neg (by omega)]
+  · decide_if at hG
+    exact ⟨(⟨ofHashT s.doubleHashDictionary.h1 t1, ofHash s.doubleHashDictionary.h2⟩, none), by rw [hnf, hml]; rfl,
+      t1, ht1, rfl, hG.symm, by intro st k o h; cases h⟩
+  decide_if at hG
+  -- the forward extension (`F` = whatever loop function the text calls)
+  have hG := extBlock_at (first_loop% hG 4) _ _ fuel A L i j k8 ia hG (loop2_of_eqn _ (fun fuel k r q => by unfold_head; rfl)) kk hia hw.1
+    hk8le hLA (by omega) hme
+  try dsimp only at hG
   -- the backward extension
   have hbe := ProbeW.backExtW_eq (A.take L) (A.drop L) i li j (by omega) (by rw [hpl]; omega)
   have hmle := backExt_le (A.take L) i li j
-  have hgb := gen_backExt lcs hlcs A L i li j ia lia (kk : Int) hia hlia hw.1 (by omega) hLA hli
-  generalize backExt (A.take L) i li j = m at hbe hmle hgb
-  -- the re-indexing loop (it starts at the match position j)
-  obtain ⟨t2, ht2, hr7, hl7⟩ := loopH1_eq
-    (bdhp_Parse_loop_7 grow lcs (if ((i - m : Nat) : Int) + ((kk : Int) + (m : Int)) > e1I then e1I
-        else ((i - m : Nat) : Int) + ((kk : Int) + (m : Int)))
-      (y &&& s.doubleHashDictionary.h1.mask) { arr := A, len := E1 + 7 }
-      (Gen.hashValue (y &&& s.doubleHashDictionary.h1.mask) s.doubleHashDictionary.h1.shift))
-    (if ((i - m : Nat) : Int) + ((kk : Int) + (m : Int)) > e1I then e1I
-        else ((i - m : Nat) : Int) + ((kk : Int) + (m : Int))) { arr := A, len := E1 + 7 }
-    (loop7_heq grow lcs _ _ _ _)
-    (Min.min (i - m + (kk + m)) E1 - j) fuel j ((j : Nat) : Int) (setTB s t1 s.doubleHashDictionary.h2.table) rfl
-    (by rw [hE1]; split <;> omega) (by omega)
-    (by show _ ∨ _ ≤ E1 + 7; omega) c1 ht1
-  rw [hpd] at hr7
-  have hr7' : ProbeW.insertRangeW (ofHashT s.doubleHashDictionary.h1 t1) (List.take (E1 + 7) A) j
-      (Min.min (i - m + (kk + m)) E1 - j) = some (ofHashT s.doubleHashDictionary.h1 t2) := hr7
-  refine ⟨(⟨ofHashT s.doubleHashDictionary.h1 t2, ofHash s.doubleHashDictionary.h2⟩, some (i - m, kk + m, i - j)), ?_,
-    t2, ht2, rfl, ?_, ?_⟩
-  · rw [hnf, hml, Option.bind_some]
-    dsimp only
-    rw [hbe, Option.bind_some, hr7']; rfl
-  · refine bind_trans (v := (kk : Int))
-      (extBlock_eq _ (loop6_spec grow lcs (y &&& s.doubleHashDictionary.h1.mask)) fuel A L i j k8 kk ia hia hw.1 hk8le hLA
-        (by omega) hme) ?_
-    dsimp only
-    refine bind_trans hgb ?_
-    dsimp only
-    refine bind_trans (slice_okI _ lia ((i - m : Nat) : Int) li (i - m) hlia rfl (by omega)
-      (by show i - m ≤ A.length; omega)) ?_
-    dsimp only
-    refine bind_trans hl7 ?_
-    dsimp only
-    have e1 : ((i - m : Nat) : Int) + ((kk : Int) + (m : Int)) - 1 + 1 = ((i - m + (kk + m) : Nat) : Int) := by omega
-    have e2 : ((i - m : Nat) : Int) + ((kk : Int) + (m : Int)) = ((i - m + (kk + m) : Nat) : Int) := by omega
-    have e3 : ia - Int.ofNat j = ((i - j : Nat) : Int) := by show ia - (j : Int) = _; omega
-    have e4 : (kk : Int) + (m : Int) = ((kk + m : Nat) : Int) := by omega
-    rw [e1, e2, e3, e4]
-    rfl
-  · intro st k o h
-    cases h
-    exact ⟨by omega, by omega, by omega, by omega⟩
-
-theorem val_ne_iff (x : UInt64) (ent : hashEntry) : x.toUInt32 ≠ ent.value ↔ lo32 x ≠ (ofEntry ent).2 := by
-  constructor
-  · intro h hc; apply h; apply UInt32.toNat_inj.mp; rw [lo32_eq]; exact hc
-  · intro h hc; apply h; rw [← lo32_eq, hc]; rfl
+  have hm0 := backExt_zero (A.take L) i li j
+  by_cases hb : li < i
+  case' pos =>
+    decide_if at hG
+    simp only [bind_assoc, bind_ok] at hG
+    obtain ⟨s1, s2, hls, hG⟩ := backLcs_at lcs hlcs A L i li j _ ia _ _ hG (by omegaI) hia hb hw.1 (by omega) hLA
+    simp only [hls] at hG
+  case' neg =>
+    decide_if at hG
+    rw [bind_ok] at hG
+    have hm0 := hm0 hb
+  all_goals (
+    generalize backExt (A.take L) i li j = m at *
+    -- q := p[litIndex:i]
+    rw [slice_okI _ _ _ li (i - m) (by omegaI) (by omegaI) (by omega) (by show i - m ≤ A.length; omega), bind_ok] at hG
+    try dsimp only at hG
+    -- the re-indexing loop (it starts at the match position j)
+    have hq := loopH1_at _ _ _ _ _ _ _ _ hG (by intros; unfold_head; rfl)
+    obtain ⟨t2, ht2, hr7, hG⟩ := hq (Min.min (i - m + (kk + m)) E1 - j) j (by omegaI) (by omegaI) (by omega)
+      (by show _ ∨ _ ≤ E1 + 7; omega) c1 ht1
+    rw [hpd] at hr7
+    have hr7' : ProbeW.insertRangeW (ofHashT s.doubleHashDictionary.h1 t1) (List.take (E1 + 7) A) j
+        (Min.min (i - m + (kk + m)) E1 - j) = some (ofHashT s.doubleHashDictionary.h1 t2) := hr7
+    refine ⟨(⟨ofHashT s.doubleHashDictionary.h1 t2, ofHash s.doubleHashDictionary.h2⟩, some (i - m, kk + m, i - j)), ?_,
+      t2, ht2, rfl, ?_, ?_⟩
+    · rw [hnf, hml, Option.bind_some]
+      dsimp only
+      rw [hbe, Option.bind_some, hr7']; rfl
+    · rw [← hG]
+      try dsimp only
+      exact loop_congr _ (by omegaI) rfl (blk_eq (seq_eq (by omegaI) (by omegaI) (by omegaI)) rfl) (by omegaI)
+    · intro st k o h
+      cases h
+      exact ⟨by omega, by omega, by omega, by omega⟩)
 
 set_option maxHeartbeats 4000000 in
 /-- one iteration of the FIRST loop (`for ; i < e2; i++`: both tables are probed and updated) -/
@@ -166,13 +180,13 @@ theorem loop1_step (grow : Nat → Nat → Nat) (lcs : Slice → Slice → Int) 
     ∃ r, ProbeW.dhpProbeW ws mmN E1 E2 true (A.drop L) (absB s) (A.take L) i li = some r ∧
       ∃ t1' t2', TOK s.doubleHashDictionary.h1.shift t1' ∧ TOK s.doubleHashDictionary.h2.shift t2' ∧
         r.1 = ⟨ofHashT s.doubleHashDictionary.h1 t1', ofHashT s.doubleHashDictionary.h2 t2'⟩ ∧
-        bdhp_Parse_loop_1 grow lcs e2I { arr := A, len := E1 + 7 } { arr := A, len := L } mm e1I (fuel + 1) ia s blk lia =
+        (callee_loop% bdhp_Parse 0) grow lcs e2I { arr := A, len := E1 + 7 } { arr := A, len := L } mm e1I (fuel + 1) ia s blk lia =
           (match r.2 with
           | none =>
-            bdhp_Parse_loop_1 grow lcs e2I { arr := A, len := E1 + 7 } { arr := A, len := L } mm e1I fuel (ia + 1)
+            (callee_loop% bdhp_Parse 0) grow lcs e2I { arr := A, len := E1 + 7 } { arr := A, len := L } mm e1I fuel (ia + 1)
               (setTB s t1' t2') blk lia
           | some (st, k, o) =>
-            bdhp_Parse_loop_1 grow lcs e2I { arr := A, len := E1 + 7 } { arr := A, len := L } mm e1I fuel
+            (callee_loop% bdhp_Parse 0) grow lcs e2I { arr := A, len := E1 + 7 } { arr := A, len := L } mm e1I fuel
               ((st + k : Nat) : Int) (setTB s t1' t2')
               { Sequences := blk.Sequences ++ [seqRep { litLen := st - li, matchLen := k, offset := o }],
                 Literals := Slice.append grow blk.Literals ((A.drop li).take (st - li)) }
@@ -192,12 +206,22 @@ theorem loop1_step (grow : Nat → Nat → Nat) (lcs : Slice → Slice → Int) 
     w2.tok w2.sh1 w2.sh2 y ia i hia (by omega)
   obtain ⟨ent1, t1, hidx1, hset1, ht1, hget1, hofs1⟩ := table_probe s.doubleHashDictionary.h1 s.doubleHashDictionary.h1.table
     w1.tok w1.sh1 w1.sh2 y ia i hia (by omega)
-  rw [bdhp_Parse_loop_1, if_pos (by omega), hF]
-  dsimp only
-  rw [hidx2, bind_ok, hset2, bind_ok]
-  try dsimp only
-  rw [hidx1, bind_ok, hset1, bind_ok]
-  try dsimp only
+  -- the generated side: `G`, computed step by step in `hG`
+  generalize hG : (callee_loop% bdhp_Parse 0) grow lcs e2I { arr := A, len := E1 + 7 } { arr := A, len := L } mm e1I (fuel + 1) ia s blk lia = G
+  unfold_head at hG
+  unfold_helpers at hG
+  decide_if at hG
+  rw [hF] at hG
+  dsimp only at hG
+  -- the two probes, in whatever order the text makes them
+  first
+    | rw [hidx2, bind_ok, hset2, bind_ok] at hG
+      try dsimp only at hG
+      rw [hidx1, bind_ok, hset1, bind_ok] at hG
+    | rw [hidx1, bind_ok, hset1, bind_ok] at hG
+      try dsimp only at hG
+      rw [hidx2, bind_ok, hset2, bind_ok] at hG
+  try dsimp only at hG
   have hnf := dhpProbeW_nf1 ws mmN E1 E2 true (A.drop L) (absB s) (A.take L) i li (A.take (E1 + 7)) y hi hmem hy
     (y &&& s.doubleHashDictionary.h2.mask) (by rw [w2.mask]; rfl) (ofEntry ent2) hget2
     (ofHashT s.doubleHashDictionary.h2 u1) hofs2
@@ -206,154 +230,131 @@ theorem loop1_step (grow : Nat → Nat → Nat) (lcs : Slice → Slice → Int) 
   by_cases hv2 : (y &&& s.doubleHashDictionary.h2.mask).toUInt32 ≠ ent2.value <;>
     by_cases hv1 : (y &&& s.doubleHashDictionary.h1.mask).toUInt32 ≠ ent1.value
   · -- neither table has the value: `continue`
-    refine ⟨(⟨ofHashT s.doubleHashDictionary.h1 t1, ofHashT s.doubleHashDictionary.h2 u1⟩, none),
+    decide_val hv2 at hG
+    decide_val hv1 at hG
+    exact ⟨(⟨ofHashT s.doubleHashDictionary.h1 t1, ofHashT s.doubleHashDictionary.h2 u1⟩, none),
       by rw [hnf, if_pos ((val_ne_iff _ _).mp hv2), if_pos ((val_ne_iff _ _).mp hv1)],
-      t1, u1, ht1, hu1, rfl, ?_, by intro st k o h; cases h⟩
-    rw [if_pos hv2, if_pos hv1]
+      t1, u1, ht1, hu1, rfl, hG.symm, by intro st k o h; cases h⟩
   all_goals (
     -- the candidate `ent`: the entry of h1 (the value of h2 differs) or the entry of h2
     first
-      | (rw [if_pos hv2, if_neg hv1]
+      | (have hv2' : (y &&& s.doubleHashDictionary.h2.mask).toUInt32 ≠ ent2.value := hv2
+         decide_val hv2 at hG
+         decide_val hv1 at hG
          have hnfE : ProbeW.dhpProbeW ws mmN E1 E2 true (A.drop L) (absB s) (A.take L) i li =
              tailM1 ws mmN E1 E2 true (A.drop L) (A.take L) (A.take (E1 + 7)) i li
                (ofHashT s.doubleHashDictionary.h1 t1) (ofHashT s.doubleHashDictionary.h2 u1) (ofEntry ent1) := by
            rw [hnf, if_pos ((val_ne_iff _ _).mp hv2), if_neg (fun hc => hv1 ((val_ne_iff _ _).mpr hc))]
          obtain ⟨ent, hent⟩ : ∃ ent, ent = ent1 := ⟨_, rfl⟩
-         rw [← hent] at hnfE ⊢)
-      | (rw [if_neg hv2]
+         rw [← hent] at hnfE hG)
+      | (decide_val hv2 at hG
          have hnfE : ProbeW.dhpProbeW ws mmN E1 E2 true (A.drop L) (absB s) (A.take L) i li =
              tailM1 ws mmN E1 E2 true (A.drop L) (A.take L) (A.take (E1 + 7)) i li
                (ofHashT s.doubleHashDictionary.h1 t1) (ofHashT s.doubleHashDictionary.h2 u1) (ofEntry ent2) := by
            rw [hnf, if_neg (fun hc => hv2 ((val_ne_iff _ _).mpr hc))]
          obtain ⟨ent, hent⟩ : ∃ ent, ent = ent2 := ⟨_, rfl⟩
-         rw [← hent] at hnfE ⊢)
+         rw [← hent] at hnfE hG)
     unfold tailM1 at hnfE
     simp only [if_true, Option.bind_some] at hnfE
     -- B: the candidate is outside the window
     have hj1 : (ofEntry ent).1 = ent.pos.toNat := rfl
     rw [hj1] at hnfE
-    generalize hjdef : ent.pos.toNat = j at hnfE ⊢
+    generalize hjdef : ent.pos.toNat = j at hnfE hG
+    try dsimp only at hG
     by_cases hw : ¬ (j < i ∧ i - j ≤ ws)
-    · refine ⟨(⟨ofHashT s.doubleHashDictionary.h1 t1, ofHashT s.doubleHashDictionary.h2 u1⟩, none),
-        by rw [hnfE, if_pos hw], t1, u1, ht1, hu1, rfl, ?_, by intro st k o h; cases h⟩
-      split
-      all_goals first
-        | rfl
-        | (rename_i hc; exfalso; simp only [Int.ofNat_eq_natCast] at hc; omega)
-    have hc1 : 0 < ia - Int.ofNat j := by show 0 < ia - (j : Int); omega
-    have hc2 : ia - Int.ofNat j ≤ s.BDHPConfig.WindowSize := by show ia - (j : Int) ≤ _; omega
-    have hc3 : ¬ (ia - Int.ofNat j ≤ 0) := by show ¬ (ia - (j : Int) ≤ 0); omega
-    have hc4 : ¬ (ia - Int.ofNat j > s.BDHPConfig.WindowSize) := by show ¬ (ia - (j : Int) > _); omega
-    have hc5 : ¬ (s.BDHPConfig.WindowSize < ia - Int.ofNat j) := hc4
-    simp only [hc1, hc2, hc3, hc4, hc5, and_self, or_self, not_true_eq_false, not_false_eq_true, if_false, if_true]
+    · decide_if at hG
+      exact ⟨(⟨ofHashT s.doubleHashDictionary.h1 t1, ofHashT s.doubleHashDictionary.h2 u1⟩, none),
+        by rw [hnfE, if_pos hw], t1, u1, ht1, hu1, rfl, hG.symm, by intro st k o h; cases h⟩
+    decide_if at hG
     rw [if_neg hw] at hnfE
     have hw := Decidable.not_not.mp hw
     -- C: the first word of the candidate
     obtain ⟨z, hz, hF2⟩ := gen_load_ok { arr := A, len := E1 + 7 } hswf (Int.ofNat j) j rfl (by show j + 8 ≤ E1 + 7; omega)
     rw [hpd] at hz
-    rw [hF2]
-    rw [tz_shr]
+    rw [hF2] at hG
+    rw [tz_shr] at hG
     obtain ⟨k8, hk8le, hk8, hfw⟩ := first_word A L E1 mmN i j y z ia hia hy hz hw.1 (by omega) hEL hLA hEA
-    rw [hk8]
+    -- the clamp `k8 = min (tz >>> 3) (len(p) - i)`, whatever its spelling
+    rw [ite_int_eq (v := ((k8 : Nat) : Int)) (by omegaI)] at hG
     rcases hfw with ⟨hC1, hml⟩ | ⟨hC1, kk, hme, hml, hkk1, hkk2⟩
-    · refine ⟨(⟨ofHashT s.doubleHashDictionary.h1 t1, ofHashT s.doubleHashDictionary.h2 u1⟩, none),
-        by rw [hnfE, hml]; rfl, t1, u1, ht1, hu1, rfl, ?_, by intro st k o h; cases h⟩
-      rw [if_pos (by omega)]
-    rw [if_neg (by omega)]
+    · decide_if at hG
+      exact ⟨(⟨ofHashT s.doubleHashDictionary.h1 t1, ofHashT s.doubleHashDictionary.h2 u1⟩, none),
+        by rw [hnfE, hml]; rfl, t1, u1, ht1, hu1, rfl, hG.symm, by intro st k o h; cases h⟩
+    decide_if at hG
+    -- the forward extension (`F` = whatever loop function the text calls)
+    have hG := extBlock_at (first_loop% hG 4) _ _ fuel A L i j k8 ia hG
+      (loop2_of_eqn _ (fun fuel k r q => by unfold_head; rfl)) kk hia hw.1 hk8le hLA (by omega) hme
+    try dsimp only at hG
     -- the backward extension
     have hbe := ProbeW.backExtW_eq (A.take L) (A.drop L) i li j (by omega) (by rw [hpl]; omega)
     have hmle := backExt_le (A.take L) i li j
-    have hgb := gen_backExt lcs hlcs A L i li j ia lia (kk : Int) hia hlia hw.1 (by omega) hLA hli
-    generalize backExt (A.take L) i li j = m at hbe hmle hgb
-    -- the re-indexing loops (the table of h1 only): [i-m+1, min(i+k, e2)), then [.., min(i+k, e1))
-    obtain ⟨t1a, x', h', ht1a, hr1, hl3⟩ := loop3_eq grow lcs
-      (if ((i - m : Nat) : Int) + ((kk : Int) + (m : Int)) > e2I then e2I
-        else ((i - m : Nat) : Int) + ((kk : Int) + (m : Int))) y { arr := A, len := E1 + 7 } (UInt32.ofInt ia)
-      (Min.min (i - m + (kk + m)) E2 - (i - m + 1)) fuel (i - m + 1) (((i - m : Nat) : Int) + 1)
-      (y &&& s.doubleHashDictionary.h1.mask)
-      (Gen.hashValue (y &&& s.doubleHashDictionary.h1.mask) s.doubleHashDictionary.h1.shift)
-      (setTB s t1 u1) (by omega)
-      (by rw [hE2]; split <;> omega) (by omega)
-      (by show _ ∨ _ ≤ E1 + 7; omega) c1 ht1
-    rw [hpd] at hr1
-    have hr1' : ProbeW.insertRangeW (ofHashT s.doubleHashDictionary.h1 t1) (List.take (E1 + 7) A) (i - m + 1)
-        (Min.min (i - m + (kk + m)) E2 - (i - m + 1)) = some (ofHashT s.doubleHashDictionary.h1 t1a) := hr1
-    have hj3 : i - m + 1 + (Min.min (i - m + (kk + m)) E2 - (i - m + 1)) = Min.min (i - m + (kk + m)) E2 := by omega
-    rw [hj3] at hl3
-    have e1 : ((i - m : Nat) : Int) + ((kk : Int) + (m : Int)) - 1 + 1 = ((i - m + (kk + m) : Nat) : Int) := by omega
-    have e2 : ((i - m : Nat) : Int) + ((kk : Int) + (m : Int)) = ((i - m + (kk + m) : Nat) : Int) := by omega
-    have e3 : ia - Int.ofNat j = ((i - j : Nat) : Int) := by show ia - (j : Int) = _; omega
-    have e4 : (kk : Int) + (m : Int) = ((kk + m : Nat) : Int) := by omega
-    by_cases hlong : E2 < i - m + (kk + m)
-    · obtain ⟨t1b, ht1b, hr4, hl4⟩ := loopH1_eq
-        (bdhp_Parse_loop_4 grow lcs (if ((i - m : Nat) : Int) + ((kk : Int) + (m : Int)) > e1I then e1I
-            else ((i - m : Nat) : Int) + ((kk : Int) + (m : Int))) x' { arr := A, len := E1 + 7 } h' (UInt32.ofInt ia))
-        (if ((i - m : Nat) : Int) + ((kk : Int) + (m : Int)) > e1I then e1I
-            else ((i - m : Nat) : Int) + ((kk : Int) + (m : Int))) { arr := A, len := E1 + 7 }
-        (loop4_heq grow lcs _ _ _ _ _)
-        (Min.min (i - m + (kk + m)) E1 - Min.min (i - m + (kk + m)) E2) fuel (Min.min (i - m + (kk + m)) E2)
-        ((Min.min (i - m + (kk + m)) E2 : Nat) : Int)
-        (setTB s t1a u1) rfl
-        (by rw [hE1]; split <;> omega) (by omega)
-        (by show _ ∨ _ ≤ E1 + 7; omega) c1 ht1a
-      rw [hpd] at hr4
-      have hr4' : ProbeW.insertRangeW (ofHashT s.doubleHashDictionary.h1 t1a) (List.take (E1 + 7) A)
-          (Min.min (i - m + (kk + m)) E2)
-          (Min.min (i - m + (kk + m)) E1 - Min.min (i - m + (kk + m)) E2) = some (ofHashT s.doubleHashDictionary.h1 t1b) := hr4
-      have hsum : Min.min (i - m + (kk + m)) E1 - (i - m + 1) =
-          (Min.min (i - m + (kk + m)) E2 - (i - m + 1)) +
-            (Min.min (i - m + (kk + m)) E1 - Min.min (i - m + (kk + m)) E2) := by omega
-      have hmodel : ProbeW.insertRangeW (ofHashT s.doubleHashDictionary.h1 t1) (List.take (E1 + 7) A) (i - m + 1)
-          (Min.min (i - m + (kk + m)) E1 - (i - m + 1)) = some (ofHashT s.doubleHashDictionary.h1 t1b) := by
-        rw [hsum, insertRangeW_add, hr1', Option.bind_some, hj3, hr4']
-      refine ⟨(⟨ofHashT s.doubleHashDictionary.h1 t1b, ofHashT s.doubleHashDictionary.h2 u1⟩,
-          some (i - m, kk + m, i - j)), ?_, t1b, u1, ht1b, hu1, rfl, ?_, ?_⟩
-      · rw [hnfE, hml, Option.bind_some]
-        dsimp only
-        rw [hbe, Option.bind_some, hmodel, Option.bind_some]
-      · refine bind_trans (v := (kk : Int))
-          (extBlock_eq _ (loop2_spec grow lcs (y &&& s.doubleHashDictionary.h1.mask)) fuel A L i j k8 kk ia hia hw.1 hk8le hLA
-            (by omega) hme) ?_
-        dsimp only
-        refine bind_trans hgb ?_
-        dsimp only
-        refine bind_trans (slice_okI _ lia ((i - m : Nat) : Int) li (i - m) hlia rfl (by omega)
-          (by show i - m ≤ A.length; omega)) ?_
-        dsimp only
-        refine bind_trans hl3 ?_
-        dsimp only
-        rw [if_pos (by omega)]
-        refine bind_trans (bind_trans hl4 rfl) ?_
-        dsimp only
-        rw [e1, e2, e3, e4]
-        rfl
-      · intro st k o h
-        cases h
-        exact ⟨by omega, by omega, by omega, by omega⟩
-    · have hsame : Min.min (i - m + (kk + m)) E1 - (i - m + 1) = Min.min (i - m + (kk + m)) E2 - (i - m + 1) := by omega
-      refine ⟨(⟨ofHashT s.doubleHashDictionary.h1 t1a, ofHashT s.doubleHashDictionary.h2 u1⟩,
-          some (i - m, kk + m, i - j)), ?_, t1a, u1, ht1a, hu1, rfl, ?_, ?_⟩
-      · rw [hnfE, hml, Option.bind_some]
-        dsimp only
-        rw [hbe, Option.bind_some, hsame, hr1', Option.bind_some]
-      · refine bind_trans (v := (kk : Int))
-          (extBlock_eq _ (loop2_spec grow lcs (y &&& s.doubleHashDictionary.h1.mask)) fuel A L i j k8 kk ia hia hw.1 hk8le hLA
-            (by omega) hme) ?_
-        dsimp only
-        refine bind_trans hgb ?_
-        dsimp only
-        refine bind_trans (slice_okI _ lia ((i - m : Nat) : Int) li (i - m) hlia rfl (by omega)
-          (by show i - m ≤ A.length; omega)) ?_
-        dsimp only
-        refine bind_trans hl3 ?_
-        dsimp only
-        rw [if_neg (by omega), bind_ok]
-        dsimp only
-        rw [e1, e2, e3, e4]
-        rfl
-      · intro st k o h
-        cases h
-        exact ⟨by omega, by omega, by omega, by omega⟩)
+    have hm0 := backExt_zero (A.take L) i li j
+    by_cases hb : li < i
+    case' pos =>
+      decide_if at hG
+      simp only [bind_assoc, bind_ok] at hG
+      obtain ⟨s1, s2, hls, hG⟩ := backLcs_at lcs hlcs A L i li j _ ia _ _ hG (by omegaI) hia hb hw.1 (by omega) hLA
+      simp only [hls] at hG
+    case' neg =>
+      decide_if at hG
+      rw [bind_ok] at hG
+      have hm0 := hm0 hb
+    all_goals (
+      generalize backExt (A.take L) i li j = m at *
+      -- q := p[litIndex:i]
+      rw [slice_okI _ _ _ li (i - m) (by omegaI) (by omegaI) (by omega) (by show i - m ≤ A.length; omega), bind_ok] at hG
+      try dsimp only at hG
+      -- the re-indexing loops (the table of h1 only): [i-m+1, min(i+k, e2)), then [.., min(i+k, e1))
+      have hq := loopXH_at _ _ _ _ _ _ _ _ _ _ hG (by intros; unfold_head; rfl)
+      obtain ⟨t1a, x', h', ht1a, hr1, hG⟩ := hq (Min.min (i - m + (kk + m)) E2 - (i - m + 1)) (i - m + 1) (by omegaI)
+        (by omegaI) (by omega) (by show _ ∨ _ ≤ E1 + 7; omega) c1 ht1
+      rw [hpd] at hr1
+      have hr1' : ProbeW.insertRangeW (ofHashT s.doubleHashDictionary.h1 t1) (List.take (E1 + 7) A) (i - m + 1)
+          (Min.min (i - m + (kk + m)) E2 - (i - m + 1)) = some (ofHashT s.doubleHashDictionary.h1 t1a) := hr1
+      have hj3 : i - m + 1 + (Min.min (i - m + (kk + m)) E2 - (i - m + 1)) = Min.min (i - m + (kk + m)) E2 := by omega
+      rw [hj3] at hG
+      try dsimp only at hG
+      by_cases hlong : E2 < i - m + (kk + m)
+      · decide_if at hG
+        simp only [bind_assoc, bind_ok] at hG
+        have hq := loopH1_at _ _ _ _ _ _ _ _ hG (by intros; unfold_head; rfl)
+        obtain ⟨t1b, ht1b, hr4, hG⟩ := hq (Min.min (i - m + (kk + m)) E1 - Min.min (i - m + (kk + m)) E2)
+          (Min.min (i - m + (kk + m)) E2) (by omegaI) (by omegaI) (by omega) (by show _ ∨ _ ≤ E1 + 7; omega) c1 ht1a
+        rw [hpd] at hr4
+        have hr4' : ProbeW.insertRangeW (ofHashT s.doubleHashDictionary.h1 t1a) (List.take (E1 + 7) A)
+            (Min.min (i - m + (kk + m)) E2)
+            (Min.min (i - m + (kk + m)) E1 - Min.min (i - m + (kk + m)) E2) = some (ofHashT s.doubleHashDictionary.h1 t1b) := hr4
+        have hsum : Min.min (i - m + (kk + m)) E1 - (i - m + 1) =
+            (Min.min (i - m + (kk + m)) E2 - (i - m + 1)) +
+              (Min.min (i - m + (kk + m)) E1 - Min.min (i - m + (kk + m)) E2) := by omega
+        have hmodel : ProbeW.insertRangeW (ofHashT s.doubleHashDictionary.h1 t1) (List.take (E1 + 7) A) (i - m + 1)
+            (Min.min (i - m + (kk + m)) E1 - (i - m + 1)) = some (ofHashT s.doubleHashDictionary.h1 t1b) := by
+          rw [hsum, insertRangeW_add, hr1', Option.bind_some, hj3, hr4']
+        refine ⟨(⟨ofHashT s.doubleHashDictionary.h1 t1b, ofHashT s.doubleHashDictionary.h2 u1⟩,
+            some (i - m, kk + m, i - j)), ?_, t1b, u1, ht1b, hu1, rfl, ?_, ?_⟩
+        · rw [hnfE, hml, Option.bind_some]
+          dsimp only
+          rw [hbe, Option.bind_some, hmodel, Option.bind_some]
+        · rw [← hG]
+          try dsimp only
+          exact loop_congr _ (by omegaI) rfl (blk_eq (seq_eq (by omegaI) (by omegaI) (by omegaI)) rfl) (by omegaI)
+        · intro st k o h
+          cases h
+          exact ⟨by omega, by omega, by omega, by omega⟩
+      · have hsame : Min.min (i - m + (kk + m)) E1 - (i - m + 1) = Min.min (i - m + (kk + m)) E2 - (i - m + 1) := by omega
+        decide_if at hG
+        rw [bind_ok] at hG
+        refine ⟨(⟨ofHashT s.doubleHashDictionary.h1 t1a, ofHashT s.doubleHashDictionary.h2 u1⟩,
+            some (i - m, kk + m, i - j)), ?_, t1a, u1, ht1a, hu1, rfl, ?_, ?_⟩
+        · rw [hnfE, hml, Option.bind_some]
+          dsimp only
+          rw [hbe, Option.bind_some, hsame, hr1', Option.bind_some]
+        · rw [← hG]
+          try dsimp only
+          exact loop_congr _ (by omegaI) rfl (blk_eq (seq_eq (by omegaI) (by omegaI) (by omegaI)) rfl) (by omegaI)
+        · intro st k o h
+          cases h
+          exact ⟨by omega, by omega, by omega, by omega⟩))
 
 /-- the invariant of the two loops: only the tables change, they keep their invariant -/
 def InvB (s0 s : Gen.bdhp) : Prop :=
@@ -375,9 +376,9 @@ theorem loops_eq (grow : Nat → Nat → Nat) (lcs : Slice → Slice → Int) (h
     ∃ (st1 st' : LoopSt Hash2) (s1 : Gen.bdhp) (blk1 : Block') (t1 t2 : GSlice hashEntry) (blk' : Block'),
       ProbeW.greedyLoopW (ProbeW.dhpProbeW ws mmN E1 e2I.toNat true (A.drop L)) (A.take L) E1
         { dict := absB s, i := W, litIndex := W, seqs := [], lits := [] } = some st' ∧
-      bdhp_Parse_loop_1 grow lcs e2I { arr := A, len := E1 + 7 } { arr := A, len := L } mm e1I fuel (W : Int) s blk (W : Int) =
+      (callee_loop% bdhp_Parse 0) grow lcs e2I { arr := A, len := E1 + 7 } { arr := A, len := L } mm e1I fuel (W : Int) s blk (W : Int) =
         Res.ok ((st1.i : Int), s1, blk1, (st1.litIndex : Int)) ∧
-      bdhp_Parse_loop_5 grow lcs e1I { arr := A, len := E1 + 7 } { arr := A, len := L } mm fuel (st1.i : Int) s1 blk1
+      (callee_loop% bdhp_Parse 1) grow lcs e1I { arr := A, len := E1 + 7 } { arr := A, len := L } mm fuel (st1.i : Int) s1 blk1
         (st1.litIndex : Int) = Res.ok ((st'.i : Int), setTB s t1 t2, blk', (st'.litIndex : Int)) ∧
       TOK s.doubleHashDictionary.h1.shift t1 ∧ TOK s.doubleHashDictionary.h2.shift t2 ∧
       st'.dict = ⟨ofHashT s.doubleHashDictionary.h1 t1, ofHashT s.doubleHashDictionary.h2 t2⟩ ∧
@@ -390,9 +391,9 @@ theorem loops_eq (grow : Nat → Nat → Nat) (lcs : Slice → Slice → Int) (h
   -- the first loop
   obtain ⟨st1, s1, blk1, hg1, hl1, ⟨u1, u2, rfl, hu1, hu2⟩, hd1, hE2i, hiL1, hli1, hsq1, hlt1, hswf1, hW1⟩ :=
     greedy_generic (ProbeW.dhpProbeW ws mmN E1 e2I.toNat true (A.drop L))
-      (bdhp_Parse_loop_1 grow lcs e2I { arr := A, len := E1 + 7 } { arr := A, len := L } mm e1I) absB (InvB s)
+      ((callee_loop% bdhp_Parse 0) grow lcs e2I { arr := A, len := E1 + 7 } { arr := A, len := L } mm e1I) absB (InvB s)
       grow A L E1 e2I.toNat (E1 + 1) 0 hE2 hEL hLA
-      (fun fuel ia s blk lia h => by rw [bdhp_Parse_loop_1, if_neg (by omega)])
+      (fun fuel ia s blk lia h => by unfold_head; rw [if_neg (by omega)])
       (fun fuel i li ia lia s' blk hinv hia hlia hlo hi hli hf => by
         obtain ⟨t1, t2, rfl, ht1, ht2⟩ := hinv
         obtain ⟨w1', w2'⟩ := hokOf t1 t2 ht1 ht2
@@ -406,9 +407,9 @@ theorem loops_eq (grow : Nat → Nat → Nat) (lcs : Slice → Slice → Int) (h
   obtain ⟨w1', w2'⟩ := hokOf u1 u2 hu1 hu2
   obtain ⟨st2, s2, blk2, hg2, hl2, ⟨v1, v2, rfl, hv1, hv2⟩, hd2, hE1i, hiL2, hli2, hsq2, hlt2, hswf2, hW2⟩ :=
     greedy_generic (ProbeW.dhpProbeW ws mmN E1 e2I.toNat true (A.drop L))
-      (bdhp_Parse_loop_5 grow lcs e1I { arr := A, len := E1 + 7 } { arr := A, len := L } mm) absB (InvB s)
+      ((callee_loop% bdhp_Parse 1) grow lcs e1I { arr := A, len := E1 + 7 } { arr := A, len := L } mm) absB (InvB s)
       grow A L E1 E1 (E1 + 1) e2I.toNat (Nat.le_refl _) hEL hLA
-      (fun fuel ia s blk lia h => by rw [bdhp_Parse_loop_5, if_neg (by omega)])
+      (fun fuel ia s blk lia h => by unfold_head; rw [if_neg (by omega)])
       (fun fuel i li ia lia s' blk hinv hia hlia hlo hi hli hf => by
         obtain ⟨t1, t2, rfl, ht1, ht2⟩ := hinv
         obtain ⟨w1'', w2''⟩ := hokOf t1 t2 ht1 ht2
